@@ -594,6 +594,58 @@ def run_send_receive(params, known):
     return dict(name=params['name'], evaluations=count, nontrivial_keys=sorted(keys), violations=violations, known=[], samples=[])
 
 
+def run_unusable_between(params, known):
+    '''A frame the receiver cannot use arrives before, between or after the two segments of a
+    transfer (a message cut short, a declared length beyond the frame, an unknown message type,
+    a segment message too short for its fields, a cancel of another transfer): the
+    transfer still completes with exactly the bundle.'''
+    violations = []
+    kinds = set()
+    count = 0
+    keys = set()
+
+    def viol(kind, detail, case):
+        if kind in kinds:
+            return
+        kinds.add(kind)
+        v = Violation(PROP, 'reassembly', kind, dict(), '%r: %s' % (case, detail)).as_dict()
+        v['case'] = case
+        violations.append(v)
+    data = b'WXYZ'
+    segs = [enc_transfer(M_SEG, 40, 0, data[0:2], hints=((0, struct.pack('!I', len(data))),)), enc_transfer(M_END, 40, 1, data[2:4])]
+    good = enc_message(M_BUNDLE, b'\x9f\xff')
+    unusable = [('cut-short', good[:3]), ('length-beyond-frame', good[:1] + struct.pack('!I', 500)[1:] + b'ab'),
+                ('unknown-type-9', enc_message(9, b'abc')), ('unknown-type-255', enc_message(255, b'')),
+                ('segment-too-short', enc_message(M_SEG, b'\x00\x00\x00')), ('end-too-short', enc_message(M_END, b'')),
+                ('cancel-other', enc_message(M_CANCEL, struct.pack('!I', 77))), ('cancel-too-short', enc_message(M_CANCEL, b'\x01')),
+                ('one-octet', b'\x03'), ('hint-flag-without-hints', bytes([M_SEG]) + struct.pack('!I', (0x8 << 20) | 0)[1:]),
+                ('hint-length-beyond-message', bytes([M_BUNDLE]) + struct.pack('!I', (0x8 << 20) | 3)[1:] + bytes([0, 200, 1]))]
+    for (uname, octets) in unusable:
+        for pos in (0, 1, 2):
+            count += 1
+            case = dict(unusable=uname, position=pos)
+            world = BtpuWorld(dict(role='R'))
+            seq = list(segs)
+            seq.insert(pos, octets)
+            for sdu in seq:
+                world.activate(None)
+                world.net.inject(IFNAME, frame_for(sdu))
+                world.run_all()
+            keys.add('%s/%d' % (uname, pos))
+            if world.escaped:
+                viol('exception-escaped-callback', '%s: %s' % (world.escaped[-1][0], world.escaped[-1][2]), case)
+            fins = [sg for sg in world.signals if sg[0] == 'recv_bundle_finished']
+            got = []
+            for sg in fins:
+                res = world.call('recv_bundle_pop_data', sg[1])
+                got.append(bytes(res[1]) if res[0] == 'ok' else None)
+            # (a bundle message that declares more octets than the frame holds is queued with what is there:
+            # junk for the layer above, not a copy of the transfer)
+            if got.count(data) != 1 or (len(got) != 1 and uname != 'length-beyond-frame'):
+                viol('queued-bundles-differ', 'queued %r, the bundle is %r' % (got, data), case)
+    return dict(name=params['name'], evaluations=count, nontrivial_keys=sorted(keys), violations=violations, known=[], samples=[])
+
+
 def run_pop_histories(params, known):
     '''Receive / pop histories: three bundles (each in two segments, in order or reversed) arrive
     one after the other; the user pops any announced and not yet popped bundle at any point.
@@ -675,6 +727,7 @@ def run_pop_histories(params, known):
 def scenarios(tier):
     out = []
     out.append(dict(name='pop-histories', kind='enum', runner='run_pop_histories', params=dict(name='pop-histories'), weight=10))
+    out.append(dict(name='unusable-between', kind='enum', runner='run_unusable_between', params=dict(name='unusable-between'), weight=10))
     out.append(dict(name='send-receive', kind='enum', runner='run_send_receive', params=dict(name='send-receive'), weight=30))
     for part in range(6):
         name = 'codec-%d/6' % (part + 1)
@@ -704,6 +757,7 @@ def scenarios(tier):
 ASSUMPTIONS = [
     'Ethernet frames on a virtual AF_PACKET socket; the MTU bounds the message set carried in one frame',
     'the 1 s transfer timers fire only after the last segment of a delivery (then all of them, in deadline order)',
+    'eleven kinds of unusable frames (an Ethernet frame without payload octets does not occur: frames are padded) before / between / after the two segments of a transfer',
     'send/receive: bundles of 65535-70000 octets with no MTU / an MTU above / Ethernet size, and two or three bundles handed over back to back, frames arriving in order, alternating and reversed',
     'reassembly: 3-5 segments of two octets each, all permutations; a second two-segment transfer slipped in at every pair of positions, in both orders',
 ]
